@@ -345,10 +345,10 @@ class ipv6 (packet_base):
       return
 
     length = self.payload_length
-    if length > len(raw):
-      length = len(raw) # Clamp to what we've got
+    if length > len(raw) - offset:
+      length = len(raw) - offset # Clamp to what we've got
       self.msg('(ipv6) warning IP packet data incomplete (%s of %s)'
-               % (len(raw), self.payload_length))
+               % (len(raw) - offset, self.payload_length))
 
     while nht != ipv6.NO_NEXT_HEADER:
       c = _extension_headers.get(nht)
@@ -357,8 +357,9 @@ class ipv6 (packet_base):
           self.msg('(ipv6) warning, packet data incomplete')
           return
         try:
-          offset,o = c.unpack_new(raw, offset, max_length = length)
-          length -= len(o)
+          new_offset,o = c.unpack_new(raw, offset, max_length = length)
+          length -= new_offset - offset
+          offset = new_offset
         except (TruncatedException, struct.error):
           self.msg('(ipv6) warning, packet data truncated')
           return
